@@ -83,6 +83,11 @@ def transform_configs():
     # a registered transform given WITHOUT its inverse (the inverse of torch.exp is looked up in the library's transform registry)
     cfgs.append({"cls": "Positive", "lo": None, "hi": None, "tf": "exp", "tensor": False, "inv": "registry"})
     cfgs.append({"cls": "GreaterThan", "lo": BOUND_VALUES[len(BOUND_VALUES) // 2], "hi": None, "tf": "exp", "tensor": False, "inv": "registry"})
+    # the default transforms under their other standard spellings (still without an explicit inverse)
+    cfgs.append({"cls": "Positive", "lo": None, "hi": None, "tf": "softplus", "tensor": False, "spelling": "nn.Softplus()"})
+    cfgs.append({"cls": "GreaterThan", "lo": BOUND_VALUES[len(BOUND_VALUES) // 2], "hi": None, "tf": "softplus", "tensor": False, "spelling": "F.softplus"})
+    cfgs.append({"cls": "Interval", "lo": PAIRS[0][0], "hi": PAIRS[0][1], "tf": "sigmoid", "tensor": False, "spelling": "F.sigmoid"})
+    cfgs.append({"cls": "Interval", "lo": PAIRS[0][0], "hi": PAIRS[0][1], "tf": "sigmoid", "tensor": False, "spelling": "nn.Sigmoid()"})
     # tensor-valued bounds
     cfgs.append({"cls": "Interval", "lo": "pairs_lo", "hi": "pairs_hi", "tf": "sigmoid", "tensor": True})
     cfgs.append({"cls": "Interval", "lo": -2e8, "hi": "values", "tf": "sigmoid", "tensor": True})
@@ -118,9 +123,13 @@ def build_constraint(cfg, dtype):
         kw = {"transform": torch.exp, "inv_transform": torch.log}
         if cfg.get("inv") == "registry":
             kw = {"transform": torch.exp}
+    sp = cfg.get("spelling")
+    if sp:
+        kw = {"transform": {"nn.Softplus()": torch.nn.Softplus(), "F.softplus": torch.nn.functional.softplus, "F.sigmoid": torch.nn.functional.sigmoid,
+                            "nn.Sigmoid()": torch.nn.Sigmoid()}[sp]}
     lo, hi = _bound(cfg["lo"]), _bound(cfg["hi"])
     if cfg["cls"] == "Interval":
-        c = Interval(lo, hi)
+        c = Interval(lo, hi, **(kw if sp else {}))
     elif cfg["cls"] == "GreaterThan":
         c = GreaterThan(lo, **kw)
     elif cfg["cls"] == "LessThan":
